@@ -579,11 +579,21 @@ class ClassModificationArgument(Node):
         )
 
     def __deepcopy__(self, memo):
-        _scope, _deepcp = self.scope, self.__deepcopy__
+        # The scope points up into the instance tree and is shared, not copied.
+        # Temporarily shadow this method on the instance so that the generic
+        # deepcopy machinery is used. The shadow must not survive on either
+        # object: a bound method left on the copy would still refer to the
+        # original, and copying the copy would then copy the original instead
+        # (losing e.g. a scope that was set on the copy).
+        _scope = self.scope
         self.scope, self.__deepcopy__ = None, None
-        new = copy.deepcopy(self, memo)
-        self.scope, self.__deepcopy__ = _scope, _deepcp
-        new.scope, new.__deepcopy__ = _scope, _deepcp
+        try:
+            new = copy.deepcopy(self, memo)
+        finally:
+            del self.__deepcopy__
+            self.scope = _scope
+        del new.__deepcopy__
+        new.scope = _scope
         return new
 
 
